@@ -5,6 +5,7 @@ computed from the property statement on plain tuples.
 Conventions
 -----------
 refine family ("R"):   hit = [profile, start, end, score]   (e-value = 10**-score)
+                       or [profile, start, end, score, evalue] when the e-value does not follow the score
                        output hit = [profile, start, end, evalue, bitscore]
 hmmer family ("H"):    hit = [identifier, start, end, score]
 filter family ("F"):   hit = [profile, cds, start, end, score]
@@ -94,10 +95,21 @@ R_CONFIGS: dict[str, dict[str, Any]] = {
     "q4": {"pos": [0, 10, 20, 30], "lens": {"A": 20, "B": 50}, "scores": [1, 2]},
     # overlaps 4 (== margin of A), 6, 10 (== margin of B), lengths 4, 6, 10, 14, 16, 20
     "q5": {"pos": [0, 6, 10, 16, 20], "lens": {"A": 20, "B": 50}, "scores": [1, 2]},
+    # (bitscore, e-value) pairs that do NOT run in step: equal e-values with different scores (1 and 3 at
+    # 1e-9), e-values opposite to the scores (1 at 1e-9, 3 at 1e-2), and a competitor score (2) between them
+    "q6": {"pos": [0, 10, 20, 30], "lens": {"A": 20, "B": 50},
+           "stats": [[1, 1e-9], [2, 1e-5], [3, 1e-2], [3, 1e-9]]},
+    "r6": {"pos": [0, 10, 20, 30, 40], "lens": {"A": 20, "B": 50},
+           "stats": [[1, 0.0], [2, 1e-5], [3, 1e-2], [3, 0.0], [2, 1e-9]]},
 }
 
 
 def r_alphabet(cfg: dict[str, Any]) -> list[list]:
+    """ hits [profile, start, end, score] (e-value 10**-score) or, for configurations with explicit
+        (score, e-value) pairs, [profile, start, end, score, evalue] """
+    if "stats" in cfg:
+        return [[p, a, b, s, e] for p in sorted(cfg["lens"]) for (a, b) in intervals(cfg["pos"])
+                for s, e in cfg["stats"]]
     return [[p, a, b, s] for p in sorted(cfg["lens"]) for (a, b) in intervals(cfg["pos"])
             for s in cfg["scores"]]
 
